@@ -125,7 +125,7 @@ class Report:
         }
         if broken:
             ev['coverage']['analysis_broken'] = broken
-        json.dump(ev, open(os.path.join(evdir, self.pid + '.json'), 'w'), indent=1)
+        json.dump(ev, open(os.path.join(evdir, self.pid + '.json'), 'w'), indent=1, default=lambda o: sorted(o) if isinstance(o, (set, frozenset)) else str(o))
         print('analysed: ' + json.dumps(self.analysed))
         for r in sorted(per_rule):
             print('rule %s: %d/%d obligations discharged -- %s' % (r, per_rule[r]['discharged'], per_rule[r]['obligations'], per_rule[r]['text'][:110]))
